@@ -2,6 +2,7 @@ package ovsdb
 
 import (
 	"fmt"
+	"math"
 	"reflect"
 )
 
@@ -99,6 +100,10 @@ func OvsToNativeAtomic(basicType string, ovsElem interface{}) (interface{}, erro
 		// Default decoding of numbers is float64, convert them to int
 		if ovsElem == nil || !reflect.TypeOf(ovsElem).ConvertibleTo(naType) {
 			return nil, NewErrWrongType("OvsToNativeAtomic", fmt.Sprintf("Convertible to %s", naType), ovsElem)
+		}
+		// a JSON number that is not an integer of 64 bits is of the wrong type: it is not truncated
+		if f, ok := ovsElem.(float64); ok && !(f == math.Trunc(f) && f >= -(1<<63) && f < (1<<63)) {
+			return nil, NewErrWrongType("OvsToNativeAtomic", "integer", ovsElem)
 		}
 		return reflect.ValueOf(ovsElem).Convert(naType).Interface(), nil
 	case TypeUUID:
